@@ -8,6 +8,7 @@
    Model/OnchainClaims.lean.  No Mathlib. -/
 import LdkModel.Model.OnchainClaims
 import LdkModel.Generated.Maturity
+import LdkModel.Generated.PreimageClaims
 namespace Ldk.Onchain
 open Ldk Ldk.Maturity
 
@@ -48,5 +49,74 @@ def scriptCsv (c : CloseCfg) : Kind → Option Nat
     in from the configuration (whatever the caller put there is overwritten) -/
 def closeWith (c : CloseCfg) (height : Nat) (items : List Item) : Ledger :=
   close height (items.map fun i => { i with csv := itemCsv c i.kind })
+
+/-! ### A preimage learned AFTER the closing commitment confirmed
+
+    `ChannelMonitorImpl::provide_payment_preimage` stores the preimage and scans the HTLCs of the
+    confirmed commitment for outputs it can now claim.  Payment hashes are NOT unique per commitment
+    (several parts of one multi-part payment over one channel; a reused hash): the SHAPE of that scan
+    (every match / first match) and its test are TRANSLATED (Generated/PreimageClaims.lean); here they
+    are composed with the ledger. -/
+open Ldk.PreimageClaims
+
+/-- positions `k, k+1, …` of the elements of a list that satisfy `p` -/
+def matchingIdx {α : Type} (p : α → Bool) : List α → Nat → List Nat
+  | [], _ => []
+  | x :: xs, k => if p x then k :: matchingIdx p xs (k + 1) else matchingIdx p xs (k + 1)
+
+/-- the positions a scan of the given shape acts on -/
+def selectIdx {α : Type} (mode : IterMode) (p : α → Bool) (xs : List α) : List Nat :=
+  match mode with
+  | .all => matchingIdx p xs 0
+  | .first => (matchingIdx p xs 0).take 1
+
+/-- a ledger together with the closure configuration and the payment hash (an opaque id; 0 for the
+    balance output) of the HTLC behind each entry, in entry order -/
+structure HLedger where
+  cfg : CloseCfg
+  ledger : Ledger
+  hashes : List Nat
+  deriving Repr, Inhabited
+
+def Item.inbound (i : Item) : Bool := i.kind = .inboundHtlcPreimage || i.kind = .inboundHtlcUnknown
+
+/-- the scan's test on one HTLC output, for the preimage of `matching`: on the COUNTERPARTY's
+    commitment the node's inbound HTLCs are the offered, non-dust ones
+    (`counterpartyPreimageMatches`); on the HOLDER's commitment they are the received ones, included
+    once `payment_preimages` knows their hash (`holderClaimIncluded`) -/
+def preimageScanAccepts (c : CloseCfg) (matching : Nat) (eh : Entry × Nat) : Bool :=
+  eh.1.item.inbound &&
+    (if c.holderClose then holderClaimIncluded false (decide (eh.2 = matching))
+     else counterpartyPreimageMatches true true eh.2 matching)
+
+/-- a claim package for this output is handed to the OnchainTxHandler: if the output is still
+    unspent and the node could not claim it before, it now can -/
+def Entry.learn (c : CloseCfg) (e : Entry) : Entry := match e.stage with
+  | .pending =>
+    if e.item.kind = .inboundHtlcUnknown then
+      { e with item := { e.item with kind := .inboundHtlcPreimage, csv := itemCsv c .inboundHtlcPreimage } }
+    else e
+  | _ => e
+
+/-- mirrors provide_payment_preimage on a monitor whose closing commitment has confirmed -/
+def HLedger.provide (hl : HLedger) (matching : Nat) : HLedger :=
+  let mode := if hl.cfg.holderClose then holderPreimageIter else counterpartyPreimageIter
+  let sel := selectIdx mode (preimageScanAccepts hl.cfg matching) (hl.ledger.entries.zip hl.hashes)
+  { hl with ledger := { hl.ledger with entries := hl.ledger.entries.mapIdx fun i e => if sel.contains i then e.learn hl.cfg else e } }
+
+inductive HOp where
+  | op (o : Op)
+  | provide (matching : Nat)
+  deriving DecidableEq, Repr
+
+def HLedger.step (hl : HLedger) : HOp → HLedger
+  | .op o => { hl with ledger := Onchain.step hl.ledger o }
+  | .provide m => hl.provide m
+
+def HLedger.run (hl : HLedger) (ops : List HOp) : HLedger := ops.foldl HLedger.step hl
+
+/-- the closure: items with the payment hash of each -/
+def hclose (c : CloseCfg) (height : Nat) (items : List (Item × Nat)) : HLedger :=
+  { cfg := c, ledger := closeWith c height (items.map (·.1)), hashes := items.map (·.2) }
 
 end Ldk.Onchain
